@@ -3,7 +3,7 @@
    (generic soundness), Conc/LockGraphCheck.v (application to Gen/GenLockGraph.v, regenerated
    from client.py on every run). *)
 From PahoV Require Import Base.Prelude Conc.LockGraph Conc.LockGraphSound Gen.GenLockGraph
-  Conc.LockGraphEntry Conc.LockGraphCheck.
+  Conc.LockGraphEntry Conc.LockGraphCheck Conc.PacketQueue Conc.PacketQueueProofs.
 
 (* 1. generic, every program: a closed set of abstract states with no stuck state proves that no
       stuck configuration is reachable, for runs of any length and any callback/API nesting depth *)
@@ -54,7 +54,32 @@ Theorem C18_translation_clean : translation_problems = [] /\ calls_defined prog 
 Proof. exact translation_clean. Qed.
 Print Assumptions C18_translation_clean.
 
+(* 6. written by the enclosing or the next iteration (small model of _packet_queue's guard and the
+      _packet_write loop, Conc/PacketQueue.v; tied to the implementation by the harness oracle) *)
+Theorem C18_written_next_queued : forall fuel cb p s, in_cb s = true ->
+  outq (packet_queue fuel cb p s) = outq s ++ [p] /\
+  wire (packet_queue fuel cb p s) = wire s /\
+  want_reg (packet_queue fuel cb p s) = true.
+Proof. exact packet_queue_in_callback. Qed.
+Print Assumptions C18_written_next_queued.
+
+Theorem C18_written_next_iteration : forall fuel cb s, outq (loop_write fuel cb s) = [] ->
+  exists extra, wire (loop_write fuel cb s) = wire s ++ outq s ++ extra.
+Proof. exact loop_write_writes_queue. Qed.
+Print Assumptions C18_written_next_iteration.
+
+Theorem C18_written_enclosing_iteration : forall fuel cb s p q, outq s = p :: q ->
+  outq (packet_write (S fuel) cb s) = [] ->
+  exists extra, wire (packet_write (S fuel) cb s) = wire s ++ [p] ++ q ++ cb p ++ extra.
+Proof. exact packet_write_writes_callback_packets. Qed.
+Print Assumptions C18_written_enclosing_iteration.
+
 (* non-vacuity *)
+Example C18_written_next_nonvacuous :
+  let cb := fun p => if N.eqb p 1 then [7%N] else [] in
+  let s := mkQ [] [] false false false in
+  wire (packet_queue 10 cb 1%N s) = [1%N; 7%N] /\ outq (packet_queue 10 cb 1%N s) = [].
+Proof. exact written_next_nonvacuous. Qed.
 Example C18_known_sites_count : length known_sites = 28%nat.
 Proof. reflexivity. Qed.
 Example C18_stuck_sites_are_exactly_the_known_ones :
